@@ -534,7 +534,13 @@ where
         dup: &mut AHashMap<FastStr, Vec<DefId>>,
     ) {
         let base_mod_name = p.iter().map(|s| s.to_string()).join("/");
-        let mod_file_name = format!("{}/mod.rs", base_mod_name);
+        // the items of the root module (a protobuf file without `package`) go next to the generated file
+        // itself; "/mod.rs" would be an absolute path
+        let mod_file_name = if base_mod_name.is_empty() {
+            "mod.rs".to_string()
+        } else {
+            format!("{}/mod.rs", base_mod_name)
+        };
         let mut mod_stream = String::new();
 
         let mut existing_file_names: AHashSet<String> = AHashSet::new();
